@@ -295,7 +295,7 @@ Definition workload_selects (w p : obj) : Prop :=
   | SWorkload (Some sel) _ => lsel_sem (Some sel) (o_labels p)
   | SWorkload None tmpl => labels_subset tmpl (o_labels p)
   | SService sel => sel <> [] /\ labels_subset sel (o_labels p)
-  | SRC sel _ => labels_subset sel (o_labels p)
+  | SRC sel tmpl => labels_subset (rc_sel sel tmpl) (o_labels p)
   | _ => False
   end.
 
@@ -389,7 +389,7 @@ Proof.
     destruct (Hw w Hin) as [s [t Hs]]. unfold workload_selects. rewrite Hs in *.
     apply labels_spec, Ha.
   - intros [w [Hin Hsel]]. destruct (Hw w Hin) as [s [t Hs]].
-    exists (mk_labels s). split.
+    exists (mk_labels (rc_sel s t)). split.
     + apply in_map_iff. exists w. rewrite Hs. split; [reflexivity | apply (proj2 (in_sort_objs _ _)), Hin].
     + unfold workload_selects in Hsel. rewrite Hs in Hsel. apply labels_spec, Hsel.
 Qed.
